@@ -166,3 +166,42 @@ Proof. intros He. unfold size_by. rewrite (expand_size_eq _ _ _ He (req_variant_
 Theorem size_by_rsp t r : expand_size t = expand_size rsp_size_table_model ->
   size_by t (rsp_variant r) (rsp_items r) = Some (rsp_size r).
 Proof. intros He. unfold size_by. rewrite (expand_size_eq _ _ _ He (rsp_variant_in r)). apply rsp_size_table_model_ok. Qed.
+
+(* ---- the PDU encoders as put programs ---- *)
+Lemma bind_val {A B} (a : A) (f : A -> outcome B) : bind (Val a) f = f a.
+Proof. reflexivity. Qed.
+
+Ltac enc_cases :=
+  repeat match goal with
+         | |- context [u16_len ?m ?n] => destruct (u16_len m n); cbn [bind]
+         | |- context [u8_len ?m ?n] => destruct (u8_len m n); cbn [bind]
+         | |- context [if ?c then _ else _] => destruct c; cbn [bind]
+         end.
+
+Theorem req_enc_prog_model_ok m r :
+  run_enc req_enc_prog_model m (req_variant r) (fc_value (req_fc r)) (req_fields r) = Some (enc_req m r).
+Proof.
+  destruct r; unfold run_enc; vm_compute lookup_prog; cbn [option_map run_puts run_put eval_pexp req_fields nth_error fv_len bind enc_req req_fc fc_value];
+    rewrite ?packed_size_items; enc_cases; cbn [app]; rewrite ?app_nil_r, <- ?app_assoc; try reflexivity.
+Qed.
+
+Theorem rsp_enc_prog_model_ok m r :
+  run_enc rsp_enc_prog_model m (rsp_variant r) (fc_value (rsp_fc r)) (rsp_fields r) = Some (enc_rsp m r).
+Proof.
+  destruct r; unfold run_enc; vm_compute lookup_prog; cbn [option_map run_puts run_put eval_pexp rsp_fields nth_error fv_len bind enc_rsp rsp_fc fc_value];
+    rewrite ?packed_size_items; enc_cases; cbn [app]; rewrite ?app_nil_r, <- ?app_assoc; try reflexivity.
+Qed.
+
+Lemma expand_progs_eq t1 t2 n : expand_progs t1 = expand_progs t2 -> In n variant_names -> lookup_prog t1 n = lookup_prog t2 n.
+Proof.
+  unfold expand_progs. generalize variant_names as l. induction l as [|x l IH]; intros He Hin; [destruct Hin|].
+  cbn [map] in He. injection He as H1 H2. destruct Hin as [<-|Hin]; [exact H1|apply IH; assumption].
+Qed.
+
+(* a table that agrees with the model's on every variant name encodes every request / response exactly as enc_req / enc_rsp do *)
+Theorem run_enc_req t m r : expand_progs t = expand_progs req_enc_prog_model ->
+  run_enc t m (req_variant r) (fc_value (req_fc r)) (req_fields r) = Some (enc_req m r).
+Proof. intros He. unfold run_enc. rewrite (expand_progs_eq _ _ _ He (req_variant_in r)). apply req_enc_prog_model_ok. Qed.
+Theorem run_enc_rsp t m r : expand_progs t = expand_progs rsp_enc_prog_model ->
+  run_enc t m (rsp_variant r) (fc_value (rsp_fc r)) (rsp_fields r) = Some (enc_rsp m r).
+Proof. intros He. unfold run_enc. rewrite (expand_progs_eq _ _ _ He (rsp_variant_in r)). apply rsp_enc_prog_model_ok. Qed.
